@@ -536,6 +536,27 @@ func (cs *ContractSet) parseClause(fc *FuncContract, c rawLine, path string) err
 		// ghost before|after call <callee> [#k] : stmt ; stmt
 		// assert before|after call <callee> [#k] : expr
 		when, r := firstWord(body)
+		if kw == "ghost" && when == "at" {
+			// ghost at exit : stmts   (executed at every normal return, `result` bound)
+			w2, r2 := firstWord(r)
+			if w2 != "exit" || !strings.HasPrefix(strings.TrimSpace(r2), ":") {
+				return fmt.Errorf("%s:%d: expected 'ghost at exit : stmts'", path, c.line)
+			}
+			hook := GhostHook{When: "exit", Line: c.line}
+			for _, st := range splitTop(strings.TrimSpace(strings.TrimSpace(r2)[1:]), ';') {
+				st = strings.TrimSpace(st)
+				if st == "" {
+					continue
+				}
+				gs, err := parseGhostStmt(st, c.line)
+				if err != nil {
+					return fmt.Errorf("%s:%d: %v", path, c.line, err)
+				}
+				hook.Stmts = append(hook.Stmts, gs)
+			}
+			fc.Hooks = append(fc.Hooks, hook)
+			break
+		}
 		if when != "before" && when != "after" {
 			return fmt.Errorf("%s:%d: expected before/after", path, c.line)
 		}
